@@ -188,7 +188,14 @@ def check(case, rec=None):
             d = np.zeros(im.shape, np.int32)
             d[i, j] = sl
             if name == "splat":
-                # splat leaves labels of below-threshold members untouched
+                # splat leaves the labels of members that are not above the threshold as they were handed in (or
+                # sets them to 0); anything else on such a pixel is a label on background
+                notabove = ~(v > th)
+                if notabove.any() and not np.isin(np.asarray(sl)[notabove], [0, case["poison"]]).all():
+                    fails.append(fail("background", "splat: a stored pixel that is not above the threshold (value == "
+                                      "threshold included) carries label %s" %
+                                      np.asarray(sl)[notabove][~np.isin(np.asarray(sl)[notabove], [0, case["poison"]])][:3],
+                                      target=name))
                 d[i, j] = np.where(v > th, sl, 0)
             fails += labels_ok(d, n2, ref8, nref8, name, above)
     if rec is not None:
